@@ -6,15 +6,18 @@ from core import hx
 from runner import Case
 
 THEOREMS = ["C07.copy_fresh", "C07.sep_step", "C07.sep_run", "C07.no_alias_after_copy", "C07.clone_frame",
-            "C07.prune_frame", "C07.get_subtree_frame", "C07.mixed_history_frame", "C07.mixed_history_after_copy"]
+            "C07.prune_frame", "C07.get_subtree_frame", "C07.mixed_history_frame", "C07.mixed_history_after_copy",
+            "C07.copyWorld_ok", "C07.no_alias_with_growth", "C07.mixed_growth_frame", "C07.growth_step_frame"]
 RULE = ("for every monitored function (7 exporters incl. tree_to_dot and tree_to_mermaid, print/hprint/yield/hyield_tree, Node.show/hshow, 6 iterators, "
         "inorder_iter on BinaryNode trees, 14 search functions, clone_tree, node.copy(), copy.deepcopy, get_subtree, prune_tree, get_tree_diff on either argument, "
         "copy_nodes_from_tree_to_tree and copy_and_replace_nodes_from_tree_to_tree on the source tree; by the model-free oracle only also "
         "dag_iterator, the four DAG exporters and DAGNode.copy()/deepcopy on random DAGs of 2-8 nodes): a Node tree (all shapes "
         "<=4 nodes for the modelled copy functions, random shapes up to 25 nodes, depth<=10, fan-out<=8, repeated and "
         "suffix-related names, int/str/None/bool attributes), a start node (root or inner), random options, then a "
-        "history of 1-10 mutations (re-parent, detach, del children, set attribute, rename) interleaved on the input and "
-        "on the returned tree. Compared with the Model-A store: every cell (parent, ordered children, name, public "
+        "history of 1-10 mutations (re-parent, detach, del children, set attribute, rename, attach a brand-new node - which later "
+        "operations may address) interleaved on the input and on the returned tree; every function also on 1- and 2-node trees "
+        "with growth on both sides; oracle-only streams: the copying functions on BinaryNode trees, and a fault stream in which "
+        "a node carries an attribute value whose __deepcopy__ raises (the input must be intact whether or not the call raises). Compared with the Model-A store: every cell (parent, ordered children, name, public "
         "attributes) of the input and of the returned component after the history, cross links shown explicitly. "
         "A case is non-trivial when the tree has >=3 nodes and the history has an operation; distinct = distinct lines")
 EXHAUSTIVE = {"quick": "node.copy(), clone_tree, get_subtree from every start node and prune_tree(max_depth) from the root, on every ordered shape with <=4 nodes (options and histories random)",
@@ -95,7 +98,7 @@ def rand_hist(rng, n, sides=("o", "r"), k=None):
     ops = []
     for _ in range(k):
         side = rng.choice(sides)
-        kind = rng.choice(["P", "P", "P", "D", "X", "A", "A", "N"])
+        kind = rng.choice(["P", "P", "P", "D", "X", "A", "A", "N", "G", "G"])
         v = rng.randrange(max(n, 1))
         if kind == "P":
             ops.append([side, "P", v, rng.randrange(max(n, 1))])
@@ -103,6 +106,9 @@ def rand_hist(rng, n, sides=("o", "r"), k=None):
             ops.append([side, kind, v])
         elif kind == "A":
             ops.append([side, "A", v, rng.choice(["age", "tag", "z"]), rng.choice([1, 7, None, "s", "", True])])
+        elif kind == "G":
+            # attach a brand-new node; indices may also address nodes grown earlier (pool grows at its end)
+            ops.append([side, "G", rng.randrange(max(n, 1) + 2), rng.choice(ALPHA + ["q", "new"])])
         else:
             ops.append([side, "N", v, rng.choice(ALPHA + ["q"])])
     return ops
@@ -113,8 +119,8 @@ def enc_hist(ops):
     for op in ops:
         if op[1] == "A":
             out.append(".".join([op[0], "A", str(op[2]), hx(op[3]), core.enc_val(op[4])]))
-        elif op[1] == "N":
-            out.append(".".join([op[0], "N", str(op[2]), hx(op[3])]))
+        elif op[1] in ("N", "G"):
+            out.append(".".join([op[0], op[1], str(op[2]), hx(op[3])]))
         else:
             out.append(".".join(str(x) for x in op))
     return ";".join(out) if out else "-"
@@ -123,6 +129,9 @@ def enc_hist(ops):
 def _line(d):
     kind = KIND[d["fn"]]
     o = d["opts"]
+    if o.get("fault") is not None or (o.get("binary") and kind != "reader"):
+        return (f"fn=oracle name={d['fn']} start={d['start']} fault={o.get('fault')} binary={1 if o.get('binary') else 0} "
+                f"hist={enc_hist(d['hist'])} T " + core.enc_tree(d["spec"]))
     if kind == "dag":
         return f"fn=dag name={d['fn']} start={d['start']} n={o['n']} edges={';'.join('%d>%d' % tuple(e) for e in o['edges']) or '-'} hist={enc_hist(d['hist'])}"
     head = f"fn={kind} name={d['fn']} start={d['start']} tsep={hx(d['tsep'])}"
@@ -215,7 +224,7 @@ def opts_for(fn, rng, spec, start, tsep):
              "style": rng.choice(["const", "ansi", "ascii", "rounded"]),
              "flags": rng.choice([{}, {"overriding": True}, {"merge_children": True}, {"delete_children": True}, {"merge_leaves": True}]),
              "only_diff": rng.random() < 0.5, "attr_list": rng.choice([[], ["age"], ["age", "tag"]]),
-             "src": rng.randrange(1, n) if n > 1 else 0,
+             "src": 0 if (n == 1 or rng.random() < 0.2) else rng.randrange(1, n),
              "seed": rng.randrange(1 << 30)}
     return o
 
@@ -269,6 +278,52 @@ def gen(rng: random.Random, tier: str):
             start = 0 if (fn.startswith(("get_tree_diff", "copy_")) or rng.random() < 0.6) else rng.randrange(size)
             cases.append(mk(fn, spec, start, "/", opts_for(fn, rng, spec, start, "/"), rand_hist(rng, size),
                             ("random", "start=root" if start == 0 else "start=inner")))
+    # every monitored function on 1- and 2-node trees, with histories that ATTACH fresh nodes on both sides
+    # (a copy that shares a child list with its original shows only when one side grows)
+    allfns = ["copy", "deepcopy", "clone_tree", "get_subtree", "prune_tree"] + READERS
+    for fn in allfns:
+        for size in (1, 2):
+            for rep in range(2 if tier == "quick" else 12):
+                spec = label([] if size == 1 else [[]], rng)
+                start = 0 if (size == 1 or fn.startswith(("get_tree_diff", "copy_", "prune")) or rng.random() < 0.5) else 1
+                o = opts_for(fn, rng, spec, start, "/")
+                if fn == "prune_tree":
+                    o = {"paths": [], "exact": False, "sep": "/", "md": rng.choice([1, 2, 10])}
+                if fn == "get_subtree" and rep % 2 == 0:
+                    o = {"q": "", "md": rng.choice([0, 0, 3])}
+                if "src" in o:
+                    o["src"] = 0 if rep % 2 == 0 else size - 1
+                g = [["r", "G", rng.randrange(size), "new"], ["o", "G", rng.randrange(size), "new"]]
+                rng.shuffle(g)
+                cases.append(mk(fn, spec, start, "/", o, g + rand_hist(rng, size + 1, k=rng.randint(0, 4)), ("small", "n=%d" % size)))
+    # oracle-only: the copying functions on BinaryNode trees (slot semantics are not in the store model)
+    for fn in ("copy", "deepcopy", "get_subtree", "prune_tree"):
+        for _ in range(nr):
+            size = rng.choice([1, 1, 2, 2, 3, 5, 9])
+            spec = label(bshape(rng, size), rng)
+            start = 0 if (fn == "prune_tree" or rng.random() < 0.6) else rng.randrange(size)
+            o = {"binary": True}
+            if fn == "prune_tree":
+                o.update({"paths": [], "exact": False, "sep": "/", "md": rng.choice([1, 2, 10])})
+            if fn == "get_subtree":
+                o.update({"q": "", "md": rng.choice([0, 0, 2])})
+            g = [["r", "G", rng.randrange(size), "77"], ["o", "G", rng.randrange(size), "78"]]
+            rng.shuffle(g)
+            cases.append(mk(fn, spec, start, "/", o, g + rand_hist(rng, size, k=rng.randint(0, 4)), ("binary", "oracle-only")))
+    # oracle-only fault stream: some node carries an attribute value whose __deepcopy__ raises; whether or not the
+    # call raises, the input must be left exactly as it was
+    for fn in allfns:
+        for _ in range(max(4, nr // 2)):
+            size = rng.randint(1, 9)
+            spec = label(core.random_shape(rng, size), rng)
+            start = 0 if (fn.startswith(("get_tree_diff", "copy_", "prune")) or rng.random() < 0.6) else rng.randrange(size)
+            o = opts_for(fn, rng, spec, start, "/")
+            nodes = number(spec)
+            if "src" in o and rng.random() < 0.75:
+                o["fault"] = rng.choice(sub_indices(nodes, o["src"]))
+            else:
+                o["fault"] = rng.choice(sub_indices(nodes, start)) if rng.random() < 0.7 else rng.randrange(size)
+            cases.append(mk(fn, spec, start, "/", o, rand_hist(rng, size, k=rng.randint(0, 3)), ("fault", "oracle-only")))
     # inorder_iter needs a BinaryNode tree; the follow-up history only changes attributes / names
     for _ in range(nr):
         size = rng.randint(1, 12)
@@ -312,11 +367,12 @@ def nontrivial(case):
 
 
 # ---------------------------------------------------------------- real side
-def build_binary(spec):
+def build_binary(spec, fault=None):
     from bigtree import BinaryNode
     nodes = []
     def go(s):
-        n = BinaryNode(s[0], uid=len(nodes), **s[1])
+        extra = {"resource": Uncopyable()} if (fault is not None and len(nodes) == fault) else {}
+        n = BinaryNode(s[0], uid=len(nodes), **s[1], **extra)
         nodes.append(n)
         kids = [go(k) for k in s[2]]
         n.children = (kids + [None, None])[:2]
@@ -332,13 +388,24 @@ def build_dag(o):
     return nodes
 
 
-def build(spec, tsep="/", uid=True):
+class Uncopyable:
+    """attribute value whose deep copy fails (a lock, an open file, ... behave the same)"""
+    def __deepcopy__(self, memo):
+        raise RuntimeError("this resource must not be copied")
+
+    def __repr__(self):
+        return "<uncopyable>"
+
+
+def build(spec, tsep="/", uid=True, fault=None):
     from bigtree import Node
     nodes = []
     def go(s, parent):
         kw = dict(s[1])
         if uid:
             kw["uid"] = len(nodes)
+        if fault is not None and len(nodes) == fault:
+            kw["resource"] = Uncopyable()
         n = Node(s[0], sep=tsep, **kw) if parent is None else Node(s[0], **kw)
         nodes.append(n)
         if parent is not None:
@@ -472,9 +539,7 @@ def call(d, root, nodes):
                 keep = Node("k", parent=dest)
                 Node("k2", parent=keep)
                 src = nodes[o["src"]]
-                if src.is_root:
-                    other = preorder(dest)
-                elif fn == "copy_nodes_from_tree_to_tree":
+                if fn == "copy_nodes_from_tree_to_tree":
                     flags = dict(o["flags"])
                     nm = str(src.name)
                     if flags.get("overriding"):
@@ -506,7 +571,7 @@ def apply_op(op, onodes, rnodes, wrap):
     if not pool:
         return
     def pick(k):
-        if wrap:
+        if wrap and side == "r":
             return pool[k % len(pool)]
         return pool[k] if k < len(pool) else None
     n = pick(v)
@@ -526,6 +591,9 @@ def apply_op(op, onodes, rnodes, wrap):
             n.set_attrs({op[3]: op[4]})
         elif kind == "N":
             n.name = op[3]
+        elif kind == "G":
+            new = type(n)(op[3], parent=n)   # raises (and creates nothing) when the attachment is refused
+            pool.append(new)
     except Exception:
         pass
 
@@ -569,14 +637,17 @@ def impl(case):
     d = case.data
     if KIND[d["fn"]] == "dag":
         return "ok dag"
+    if d["opts"].get("fault") is not None or (d["opts"].get("binary") and KIND[d["fn"]] != "reader"):
+        return "ok oracle"
     err, ret, onodes, rnodes, other = run_real(d)
-    refs = {id(n): "o%d" % i for i, n in enumerate(onodes)}
-    refs.update({id(n): "r%d" % j for j, n in enumerate(rnodes)})
     unmodelled = other is not None
     for op in d["hist"]:
         if err is not None and op[0] == "r":
             continue
         apply_op(op, onodes, other if unmodelled else rnodes, wrap=unmodelled)
+    # references are assigned after the history: nodes grown on a side have joined its pool
+    refs = {id(n): "o%d" % i for i, n in enumerate(onodes)}
+    refs.update({id(n): "r%d" % j for j, n in enumerate(rnodes)})
     if err is not None:
         return f"err:{err} orig={show_cells(onodes, refs)}"
     return f"ok ret={refs[id(ret)] if ret is not None else '-'} orig={show_cells(onodes, refs)} res={show_cells(rnodes, refs)}"
@@ -677,7 +748,8 @@ def oracle(case):
     if KIND[d["fn"]] == "dag":
         return oracle_dag(d)
     msgs = []
-    root, nodes = build_binary(d["spec"]) if d["opts"].get("binary") else build(d["spec"], d["tsep"])
+    fault = d["opts"].get("fault")
+    root, nodes = build_binary(d["spec"], fault) if d["opts"].get("binary") else build(d["spec"], d["tsep"], fault=fault)
     before = sig(nodes)
     shape0 = shape_sig(root)
     parent_uid = {i: (nodes[i].parent.get_attr("uid") if nodes[i].parent is not None else None) for i in range(len(nodes))}
@@ -719,7 +791,7 @@ def oracle(case):
                 break
             if r is not ret and r.parent.get_attr("uid") != parent_uid[u]:
                 msgs.append(f"{d['fn']}: result node {u} hangs under a different parent")
-            ku = [c.get_attr("uid") for c in r.children]
+            ku = [c.get_attr("uid") for c in r.children if c is not None]
             if ku != [c for c in child_uids[u] if c in ku]:
                 msgs.append(f"{d['fn']}: children of result node {u} are out of order")
     # later changes on one side are not visible on the other
@@ -744,7 +816,7 @@ def shrink(case):
     for k in range(len(h)):
         yield mk(d["fn"], d["spec"], d["start"], d["tsep"], d["opts"], h[:k] + h[k + 1:], ())
     nodes = number(d["spec"])
-    if KIND[d["fn"]] in ("subtree", "prune", "dag") or d["opts"].get("binary"):
+    if KIND[d["fn"]] in ("subtree", "prune", "dag") or d["opts"].get("binary") or d["opts"].get("fault") is not None:
         return
     for idx in range(len(nodes) - 1, 0, -1):
         if nodes[idx][3][2] or idx == d["start"] or idx == d["opts"].get("src"):
@@ -770,7 +842,8 @@ NOT_READY = False
 LEVEL_TEXT = ("partial: machine-checked (Lean 4) on the pointer-level store model for the copying functions - deep copy returns fresh "
               "nodes, leaves every original cell unchanged, creates no link across the old/new boundary and equals the original up "
               "to the id shift (copy_fresh); any later history on one side leaves the other side unchanged (sep_step, sep_run, "
-              "no_alias_after_copy, mixed_history_*); clone_tree, prune_tree and get_subtree, modelled as the compositions they are "
+              "no_alias_after_copy, mixed_history_*), also when the history attaches brand-new nodes to either side "
+              "(no_alias_with_growth, mixed_growth_frame, growth_step_frame); clone_tree, prune_tree and get_subtree, modelled as the compositions they are "
               "in the code, write only fresh cells (clone_frame, prune_frame, get_subtree_frame). That the pure readers (exporters, "
               "printers, iterators, searches, get_tree_diff, the source side of copy_*_from_tree_to_tree) do not mutate is NOT proved: "
               "in the functional model it holds by typing; it rests on the monitor run against the real code on every check")
